@@ -450,6 +450,9 @@ func (r *Run) ReplayCommitted() {
 	files, _ := filepath.Glob(filepath.Join(r.replayDir, "*.json"))
 	sort.Strings(files)
 	for _, p := range files {
+		if b := filepath.Base(p); strings.HasPrefix(b, "fail-") || strings.HasPrefix(b, "hang-candidate-") {
+			continue // left behind by an earlier failing run; only committed regression cases are re-run
+		}
 		res, err := r.replayOne(p)
 		if err != nil {
 			fmt.Printf("NOTE: skipping replay file %s: %v\n", p, err)
